@@ -397,6 +397,25 @@ impl Real {
                 let d = unhex(d)?;
                 self.step(|b| Ok(b.add_chunk(ChunkData::new(d, m)?)))
             }
+            // chunk-COUNT family: add_chunk(ChunkData::new(piece, m)?) for every k-byte piece of d,
+            // answered by the first answer that is not `ok` (see Driver/C01.lean)
+            ["chunks", m, d, k, _tab] => {
+                let m = mode_of(m)?;
+                let d = unhex(d)?;
+                let k: usize = k.parse().ok()?;
+                if k == 0 {
+                    return None;
+                }
+                let mut r = "ok".to_string();
+                for pc in d.chunks(k) {
+                    let pc = pc.to_vec();
+                    r = self.step(|b| Ok(b.add_chunk(ChunkData::new(pc, m)?)));
+                    if r != "ok" {
+                        break;
+                    }
+                }
+                r
+            }
             ["build"] => {
                 let Some(b) = self.b.take() else { return Some("dead".into()) };
                 match catch(AssertUnwindSafe(move || b.build().map(|f| CascFormat::build(&f).map_err(|e| e.to_string())))) {
@@ -1332,6 +1351,83 @@ fn limit_family(s: &mut Session, rng: &mut Rng, thorough: bool, pool: &[(u64, [u
     }
 }
 
+/// The chunk-COUNT boundaries: the table's count field is 24 bits wide (three bytes, big-endian),
+/// the header size is `12 + 24n` / `12 + 40n`, the Salsa20 block index of chunk i is i (its bytes
+/// are XORed into the IV). Containers of 255 / 256 / 257 chunks (the count's second byte; K + O:
+/// the Lean model evaluates every line) and of 65535 / 65536 / 65537 / 65536 + k / 2^17 chunks (the
+/// count's top byte; oracle-only `big` lines, a few of them K + O as well) through every way of
+/// reaching a count: one add_data / add_mixed_data over a payload with a tiny
+/// with_chunk_size_unchecked (1 or 2), the same under with_encryption, two calls that reach the
+/// count together, n add_chunk calls (`chunks`), BlteFile::compress, and the table writers
+/// BlteFile::multi_chunk / BlteHeader::multi_chunk_extended on n ChunkData::new chunks (`multi#`).
+/// Payloads in generator notation, answers as digests + the complete table.
+fn count_family(s: &mut Session, rng: &mut Rng, thorough: bool, pool: &[(u64, [u8; 16])]) {
+    const B: usize = 65536;
+    let src = Src::new('n', rng.below(100_000), 2 * (2 * B + 8) + 4096);
+    let k_extra = rng.range(2, 9000) as usize;
+    let mut counts: Vec<(usize, bool)> = vec![(255, true), (256, true), (257, true), (B - 1, false), (B, false), (B + 1, false), (B + k_extra, false)];
+    if thorough {
+        counts.extend([(2 * B - 1, false), (2 * B, false), (2 * B + 1, false), (B + 256, false), (3 * B + rng.range(1, 999) as usize, false)]);
+    } else {
+        counts.push((2 * B + rng.below(2) as usize, false));
+    }
+    let routes = ["add.cs1", "add.cs2", "mixed.cs1", "add.cs1.salsa20", "add.cs1.arc4", "two-calls", "add_chunk", "compress", "multi_chunk", "multi_chunk_extended"];
+    // which of the large cases the Lean model evaluates too (about 6 s each): in the quick tier
+    // 65536 through add_data and one more (count x route) in turn; thorough: every count once
+    let kpick = (rng.below(3) as usize, *rng.pick(&["compress", "multi_chunk", "add.cs2", "mixed.cs1"]));
+    let mut kcount = 0usize;
+    for (ci, &(n, small)) in counts.iter().enumerate() {
+        for (ri, &route) in routes.iter().enumerate() {
+            let kmode = small
+                || (n == B && route == "add.cs1")
+                || (ci == 4 + kpick.0 && route == kpick.1)
+                || (thorough && n < 2 * B - 1 && (ci + ri) % routes.len() == 0);
+            // the quick tier runs every route at 65536, 65537 and 65536 + k, and every other one elsewhere
+            if !thorough && !small && !kmode && !matches!(ci, 4..=6) && (ci + ri) % 2 == 1 {
+                continue;
+            }
+            let off = rng.below(4096) as usize;
+            let d = |len: usize| src.note(off, len);
+            let mut keys = String::from("-");
+            let mut enc_line = |rng: &mut Rng, et: u8| {
+                let (name, key) = *rng.pick(pool);
+                keys = format!("{name}:{}", hex(&key));
+                format!("enc {}", Enc { et, name, iv: rng.bytes(4).try_into().unwrap(), key }.toks())
+            };
+            let lines: Vec<String> = match route {
+                "add.cs1" => vec!["begin".into(), "cs 1".into(), format!("add {} -", d(n)), "build# - -".into()],
+                // the last chunk is short
+                "add.cs2" => vec!["begin".into(), "cs 2".into(), format!("add {} -", d(2 * n - 1)), "build# - -".into()],
+                "mixed.cs1" => vec!["begin".into(), "cs 1".into(), format!("mixed {} none -", d(n)), "build# - -".into()],
+                "add.cs1.salsa20" | "add.cs1.arc4" => {
+                    let e = enc_line(rng, if route == "add.cs1.salsa20" { 0x53 } else { 0x41 });
+                    vec!["begin".into(), "cs 1".into(), e, format!("add {} -", d(n)), format!("build# {keys} -")]
+                }
+                // the count is reached by the second call (add_chunk after add_data / add_data after add_chunk)
+                "two-calls" if n % 2 == 0 => vec!["begin".into(), "cs 1".into(), format!("add {} -", d(n - 1)), format!("chunk N {} -", hex(&rng.bytes(3))), "build# - -".into()],
+                "two-calls" => vec!["begin".into(), "cs 1".into(), format!("chunk N {} -", hex(&rng.bytes(3))), format!("add {} -", d(n - 1)), "build# - -".into()],
+                "add_chunk" => vec!["begin".into(), format!("chunks N {} 1 -", d(n)), "build# - -".into()],
+                "compress" => vec![format!("compress# 1 N {} -", d(n))],
+                "multi_chunk" => vec![format!("multi# std N {} 1 -", d(n))],
+                _ => vec![format!("multi# ext N {} 2 -", d(2 * n - 1))],
+            };
+            // n add_chunk calls are quadratic in the list-based model (chunks ++ [c]), the extended
+            // table doubles its MD5 work, a cipher set-up per chunk is slow on lists: oracle-only
+            // above 257
+            let kmode = kmode && (small || !matches!(route, "add_chunk" | "multi_chunk_extended" | "add.cs1.salsa20" | "add.cs1.arc4"));
+            kcount += (kmode && !small) as usize;
+            s.tally(&format!("count.chunks.{n}"));
+            s.tally(&format!("count.route.{route}"));
+            s.tally(if kmode { "count.K+O" } else { "count.oracle-only" });
+            run_big(s, lines, kmode);
+            if HUNG.load(std::sync::atomic::Ordering::SeqCst) {
+                return;
+            }
+        }
+    }
+    s.extra.insert("count_family_large_cases_evaluated_by_the_model_too".into(), serde_json::json!(kcount));
+}
+
 // ---------------------------------------------------------------- encoder entry points outside the builder
 
 /// set when a call of the real code did not return within its watchdog time
@@ -1598,8 +1694,12 @@ fn entry_case_digest(s: &mut Session, line: &str, emit: bool, verbose: bool) {
     let parsed: Option<(usize, CompressionMode, &str, Vec<u8>)> = match toks.as_slice() {
         ["compress#", cs, m, d, _tab] => (|| Some((cs.parse().ok()?, mode_of(m)?, static_mode(m)?, unhex(d)?)))(),
         ["single#", m, d, _tab] => (|| Some((usize::MAX, mode_of(m)?, static_mode(m)?, unhex(d)?)))(),
+        // the table writers over ChunkData::new chunks of every k-byte piece of d (`cs` = k)
+        ["multi#", "std" | "ext", m, d, k, _tab] => (|| Some((k.parse().ok().filter(|k| *k > 0)?, mode_of(m)?, static_mode(m)?, unhex(d)?)))(),
         _ => None,
     };
+    // Some(extended table?) for `multi#`
+    let multi: Option<bool> = if toks[0] == "multi#" { Some(toks[1] == "ext") } else { None };
     let Some((cs, cm, m, d)) = parsed else {
         if emit {
             s.line(line, "bad-op");
@@ -1611,7 +1711,15 @@ fn entry_case_digest(s: &mut Session, line: &str, emit: bool, verbose: bool) {
     let (tx, rx) = std::sync::mpsc::channel();
     std::thread::spawn(move || {
         let r = catch(AssertUnwindSafe(move || {
-            let f = if single { BlteFile::single_chunk(d2, cm) } else { BlteFile::compress(&d2, cs, cm) };
+            let f = if let Some(ext) = multi {
+                d2.chunks(cs).map(|pc| ChunkData::new(pc.to_vec(), cm)).collect::<Result<Vec<_>, _>>().and_then(|chunks| {
+                    if ext { BlteHeader::multi_chunk_extended(&chunks).map(|header| BlteFile { header, chunks }) } else { BlteFile::multi_chunk(chunks) }
+                })
+            } else if single {
+                BlteFile::single_chunk(d2, cm)
+            } else {
+                BlteFile::compress(&d2, cs, cm)
+            };
             f.map(|f| CascFormat::build(&f).map_err(|_| ()))
         }));
         let _ = tx.send(r);
@@ -1648,9 +1756,24 @@ fn entry_case_digest(s: &mut Session, line: &str, emit: bool, verbose: bool) {
     let mut p = Prog::new();
     p.lines = replay.clone();
     p.digest = true;
-    let ch = if single { Some(vec![d.clone()]) } else { split(cs, &d) };
+    let ch = if multi.is_some() {
+        Some(d.chunks(cs).map(|c| c.to_vec()).collect())
+    } else if single {
+        Some(vec![d.clone()])
+    } else {
+        split(cs, &d)
+    };
     p.note_tab(m, ch.as_deref().unwrap_or(&[]));
-    p.shape.push(if single { "single" } else { "compress" });
+    p.shape.push(match multi {
+        Some(true) => "multi-ext",
+        Some(false) => "multi",
+        None if single => "single",
+        None => "compress",
+    });
+    if multi.is_some() && d.is_empty() {
+        // multi_chunk* of an empty vector is an error
+        p.expect_err = true;
+    }
     p.account(&d, ch, None, m != "E" && m != "F");
     let call = if r.starts_with("ok ") { "ok".to_string() } else { r.clone() };
     let dec = built.as_ref().map(|b| b.1.clone()).unwrap_or_default();
@@ -1660,8 +1783,33 @@ fn entry_case_digest(s: &mut Session, line: &str, emit: bool, verbose: bool) {
         if single && table {
             s.oracle_fail("single-chunk-with-table", "single_chunk wrote a chunk table", &replay);
         }
-        if !single && table != (p.plain_chunks.len() > 1) {
+        if !single && multi.is_none() && table != (p.plain_chunks.len() > 1) {
             s.oracle_fail("compress-table-layout", &format!("compress wrote table = {table} for {} chunks", p.plain_chunks.len()), &replay);
+        }
+        if let Some(ext) = multi {
+            // layout clauses of the table writers (as in `entry_case`)
+            if !table {
+                s.oracle_fail("multi-chunk-without-table", "multi_chunk wrote no chunk table", &replay);
+            }
+            if let Ok(parsed) = <BlteFile as CascFormat>::parse(bytes)
+                && let Some(x) = &parsed.header.extended
+            {
+                if (x.flags == HeaderFlags::Extended) != ext {
+                    s.oracle_fail("table-format-byte", &format!("table format {:?}, asked for extended = {ext}", x.flags), &replay);
+                }
+                for (i, (row, pl)) in x.chunk_infos.iter().zip(&p.plain_chunks).enumerate() {
+                    if let Some(sum) = row.decompressed_checksum
+                        && sum != md5::compute(&pl.0).0
+                    {
+                        s.oracle_fail("table-decompressed-checksum", &format!("row {i}: decompressed checksum {} but MD5(content) = {}", hex(&sum), hex(&md5::compute(&pl.0).0)), &replay);
+                        break;
+                    }
+                    if ext && row.decompressed_checksum.is_none() {
+                        s.oracle_fail("table-decompressed-checksum", &format!("row {i}: no decompressed checksum in an extended table"), &replay);
+                        break;
+                    }
+                }
+            }
         }
         s.tally(&format!("entry.{}.ok", p.shape[0]));
     } else {
@@ -2153,7 +2301,7 @@ fn replay(s: &mut Session, lines: &[String], emit: bool, verbose: bool) {
             }
             continue;
         }
-        if matches!(toks[0], "compress#" | "single#") {
+        if matches!(toks[0], "compress#" | "single#" | "multi#") {
             entry_case_digest(s, l, emit, verbose);
             if HUNG.load(std::sync::atomic::Ordering::SeqCst) {
                 return;
@@ -2265,6 +2413,14 @@ fn replay(s: &mut Session, lines: &[String], emit: bool, verbose: bool) {
                 p.shape.push("chunk");
                 p.account(&d, Some(vec![d.clone()]), None, plain_ok(m));
             }
+            ["chunks", m, d, k, _] => {
+                let d = unhex(d).unwrap_or_default();
+                let k: usize = k.parse().unwrap_or(1).max(1);
+                let pcs: Vec<Vec<u8>> = d.chunks(k).map(|c| c.to_vec()).collect();
+                p.note_tab(m, &pcs);
+                p.shape.push("chunks");
+                p.account(&d, Some(pcs), None, plain_ok(m));
+            }
             _ => {}
         }
         match toks[0] {
@@ -2340,7 +2496,7 @@ fn main() {
     let args = Args::parse();
     quiet_panics();
     let mut s = Session::new(&args.out);
-    s.rule = "seeded builder programs of 1..8 calls over {with_compression N/Z/4/E/F, with_chunk_size_unchecked 0/1/2/3/5/16/64/1024/default, with_encryption / without_encryption, add_data, add_mixed_data(None|Some), add_encrypted_data(index = position | foreign), add_chunk(ChunkData::new)} with Salsa20 / ARC4 / unknown cipher types, payload lengths 0, 1, cs-1, cs, cs+1, 2cs, 2cs+1, 3cs+r, random, first byte forced to N/Z/4/E/F in a third of them, constant / periodic / random content; plus an exhaustive sweep of one- and two-call programs over {add_data, add_mixed_data, add_encrypted_data, add_chunk}^2 x payload lengths {0,1,cs-1,cs,cs+1,2cs,2cs+1} x modes x {plain, Salsa20, ARC4}; plus the entry points outside the builder: BlteFile::compress exhaustively over chunk sizes {0,1,2,4,5,64} x lengths {0,1,cs-1,cs,cs+1,2cs,2cs+1,3cs+2} x modes N/Z/4/E/F and seeded random (chunk sizes 0..4096), single_chunk over modes x lengths, multi_chunk / multi_chunk_extended over vectors of 0..6 ChunkData::new chunks (random modes incl. E/F) and over hand-made from_compressed chunks (K only), nested containers as content; plus the family of highly compressible payloads in large single chunks: one chunk of 16 KiB / 32 KiB / 64 KiB / 256 KiB / 1 MiB (thorough: 12 sizes up to 4 MiB incl. 32 KiB +-1) of all-zero / constant / period 2..8 / mode-byte-then-constant / sparse content x modes Z and 4 x routes {add_data plain, add_data under Salsa20, add_data under ARC4, one of add_mixed_data / add_encrypted_data / add_chunk plain or encrypted, BlteFile::compress, BlteFile::single_chunk} (every content kind on every route up to 64 KiB, kinds in turn above; above 256 KiB every other route per mode in the quick tier), chunk size = payload / payload+1 / 2x / default / usize::MAX, half of the builder programs with a small chunk in front, plus 1 MiB at the default chunk size, 3x64 KiB+5 at 64 KiB and 2x32 KiB at 32 KiB (several such chunks, plain / Salsa20 / ARC4), plus one random program in 30 as a large-chunk program (chunk sizes 16 KiB .. 1 MiB / usize::MAX, payload lengths cs-1, cs, cs+1, 2cs+1, cs/2..cs, constant / periodic / sparse content, modes Z / 4, encryption in half of them); plus the family of large chunks of content that does NOT shrink (big.*): one chunk of LCG noise / dictionary-word text / alternating stretches of both at 8 KiB, 32 KiB, 64 KiB, 256 KiB each with -1 / +1, 16 KiB, 85196, 128 KiB, one of 1 MiB -1/0/+1 per content x mode (thorough: all three, and more) and two log-uniform sizes in 4 KiB .. 1 MiB, x modes N / Z / 4 plain and as inner mode under Salsa20 and under ARC4 x routes in rotation {add_data, add_data after the validated with_chunk_size(n), add_mixed_data, add_chunk, BlteFile::compress, BlteFile::single_chunk | add_data under with_encryption, add_mixed_data(Some), add_encrypted_data}, chunk size = payload / payload+1 / 2x / default / huge, half with a small chunk in front, plus payloads split into several such chunks (3x64 KiB+5, 200000 at a validated 64 KiB, 2x32 KiB); payloads are written in generator notation (~<kind><seed>.<off>*<len>) and answered with #len:fnv digests (ops build#, compress#, single#); a rotating sixth of the cases up to 64 KiB+1 and two 256 KiB chunks are evaluated by the Lean model as well, the rest are oracle-only `big` lines (both sides answer `oracle-only`); plus the builder's documented limits (limit.*): with_chunk_size at 0, 1, 1023, 1024, 1025, 16 MiB-1, 16 MiB, 16 MiB+1, 32 MiB, 2^62 (K+O), and oracle-only 16 MiB chunks: chunk size exactly 16 MiB / 16 MiB-1 with one piece of 16 MiB / 16 MiB+1 through add_data (alone, behind a small chunk, split), add_mixed_data, add_chunk (16 MiB and 16 MiB+1), compress, single_chunk in mode N; encrypted full chunks at chunk sizes 16 MiB-17, -16, -15, -1, -0 (thorough: every one of -17..0, both ciphers), add_mixed_data(Some) and add_encrypted_data with 16 MiB and 16 MiB+1; 16 MiB of noise in modes Z and 4 (thorough: and of words in Z plain and under Salsa20), single pieces of 16 MiB+1 of zeros / words through add_chunk (Z) and add_encrypted_data (Salsa20/4, ARC4/Z); one random program in six that sets a chunk size uses the validated setter at 0 / 1023 / 1024 / 1025 / 2048 / 4096 / 16 MiB / 16 MiB+1; the compression ratios reached are tallied (compress_chunk.ratio.*, compress_chunk.max-ratio.*, extra.max_compression_ratio_mode_*); hand-made containers with a Frame chunk (single-chunk and at every table position, both table formats) and encrypted chunks whose inner payload starts with F / E; non-trivial = every call succeeded, a container with >= 1 chunk was produced and decoded (or, for the hand-made Frame / nested containers, parsed and handed to both decoders); distinct = canonical text of the whole program / request".into();
+    s.rule = "seeded builder programs of 1..8 calls over {with_compression N/Z/4/E/F, with_chunk_size_unchecked 0/1/2/3/5/16/64/1024/default, with_encryption / without_encryption, add_data, add_mixed_data(None|Some), add_encrypted_data(index = position | foreign), add_chunk(ChunkData::new)} with Salsa20 / ARC4 / unknown cipher types, payload lengths 0, 1, cs-1, cs, cs+1, 2cs, 2cs+1, 3cs+r, random, first byte forced to N/Z/4/E/F in a third of them, constant / periodic / random content; plus an exhaustive sweep of one- and two-call programs over {add_data, add_mixed_data, add_encrypted_data, add_chunk}^2 x payload lengths {0,1,cs-1,cs,cs+1,2cs,2cs+1} x modes x {plain, Salsa20, ARC4}; plus the entry points outside the builder: BlteFile::compress exhaustively over chunk sizes {0,1,2,4,5,64} x lengths {0,1,cs-1,cs,cs+1,2cs,2cs+1,3cs+2} x modes N/Z/4/E/F and seeded random (chunk sizes 0..4096), single_chunk over modes x lengths, multi_chunk / multi_chunk_extended over vectors of 0..6 ChunkData::new chunks (random modes incl. E/F) and over hand-made from_compressed chunks (K only), nested containers as content; plus the family of highly compressible payloads in large single chunks: one chunk of 16 KiB / 32 KiB / 64 KiB / 256 KiB / 1 MiB (thorough: 12 sizes up to 4 MiB incl. 32 KiB +-1) of all-zero / constant / period 2..8 / mode-byte-then-constant / sparse content x modes Z and 4 x routes {add_data plain, add_data under Salsa20, add_data under ARC4, one of add_mixed_data / add_encrypted_data / add_chunk plain or encrypted, BlteFile::compress, BlteFile::single_chunk} (every content kind on every route up to 64 KiB, kinds in turn above; above 256 KiB every other route per mode in the quick tier), chunk size = payload / payload+1 / 2x / default / usize::MAX, half of the builder programs with a small chunk in front, plus 1 MiB at the default chunk size, 3x64 KiB+5 at 64 KiB and 2x32 KiB at 32 KiB (several such chunks, plain / Salsa20 / ARC4), plus one random program in 30 as a large-chunk program (chunk sizes 16 KiB .. 1 MiB / usize::MAX, payload lengths cs-1, cs, cs+1, 2cs+1, cs/2..cs, constant / periodic / sparse content, modes Z / 4, encryption in half of them); plus the family of large chunks of content that does NOT shrink (big.*): one chunk of LCG noise / dictionary-word text / alternating stretches of both at 8 KiB, 32 KiB, 64 KiB, 256 KiB each with -1 / +1, 16 KiB, 85196, 128 KiB, one of 1 MiB -1/0/+1 per content x mode (thorough: all three, and more) and two log-uniform sizes in 4 KiB .. 1 MiB, x modes N / Z / 4 plain and as inner mode under Salsa20 and under ARC4 x routes in rotation {add_data, add_data after the validated with_chunk_size(n), add_mixed_data, add_chunk, BlteFile::compress, BlteFile::single_chunk | add_data under with_encryption, add_mixed_data(Some), add_encrypted_data}, chunk size = payload / payload+1 / 2x / default / huge, half with a small chunk in front, plus payloads split into several such chunks (3x64 KiB+5, 200000 at a validated 64 KiB, 2x32 KiB); payloads are written in generator notation (~<kind><seed>.<off>*<len>) and answered with #len:fnv digests (ops build#, compress#, single#); a rotating sixth of the cases up to 64 KiB+1 and two 256 KiB chunks are evaluated by the Lean model as well, the rest are oracle-only `big` lines (both sides answer `oracle-only`); plus the builder's documented limits (limit.*): with_chunk_size at 0, 1, 1023, 1024, 1025, 16 MiB-1, 16 MiB, 16 MiB+1, 32 MiB, 2^62 (K+O), and oracle-only 16 MiB chunks: chunk size exactly 16 MiB / 16 MiB-1 with one piece of 16 MiB / 16 MiB+1 through add_data (alone, behind a small chunk, split), add_mixed_data, add_chunk (16 MiB and 16 MiB+1), compress, single_chunk in mode N; encrypted full chunks at chunk sizes 16 MiB-17, -16, -15, -1, -0 (thorough: every one of -17..0, both ciphers), add_mixed_data(Some) and add_encrypted_data with 16 MiB and 16 MiB+1; 16 MiB of noise in modes Z and 4 (thorough: and of words in Z plain and under Salsa20), single pieces of 16 MiB+1 of zeros / words through add_chunk (Z) and add_encrypted_data (Salsa20/4, ARC4/Z); one random program in six that sets a chunk size uses the validated setter at 0 / 1023 / 1024 / 1025 / 2048 / 4096 / 16 MiB / 16 MiB+1; plus the chunk-COUNT boundaries (count.*): containers of 255 / 256 / 257 chunks (K+O) and of 65535 / 65536 / 65537 / 65536+k (k random in 2..9000) / 2^17 or 2^17+1 chunks (thorough: 2^17-1, 2^17, 2^17+1, 65536+256, 3*65536+r) x routes {add_data at chunk size 1, add_data at chunk size 2 with a short last chunk, add_mixed_data at 1, add_data at 1 under Salsa20, under ARC4, two calls that reach the count together (add_data + add_chunk in either order), n add_chunk calls (`chunks`), BlteFile::compress at 1, BlteFile::multi_chunk, BlteHeader::multi_chunk_extended (`multi#`)} of LCG noise in mode N (quick: every route at 65536, 65537 and 65536+k, every other route at 65535 and 2^17(+1)); large cases are oracle-only `big` lines except 65536 through add_data and one more (count in {65536, 65537, 65536+k}, route in {compress, multi_chunk, add_data at 2, add_mixed_data}) per run which the Lean model evaluates too; the compression ratios reached are tallied (compress_chunk.ratio.*, compress_chunk.max-ratio.*, extra.max_compression_ratio_mode_*); hand-made containers with a Frame chunk (single-chunk and at every table position, both table formats) and encrypted chunks whose inner payload starts with F / E; non-trivial = every call succeeded, a container with >= 1 chunk was produced and decoded (or, for the hand-made Frame / nested containers, parsed and handed to both decoders); distinct = canonical text of the whole program / request".into();
     let mut rng = Rng::new(args.seed);
 
     if let Some(p) = &args.replay {
@@ -2457,6 +2613,13 @@ fn main() {
     let mut s = exit_if_hung(s);
     if std::env::var_os("C01_TIMES").is_some() {
         eprintln!("c01: big_family {:.1} s, limit_family {:.1} s", (t1 - t0).as_secs_f64(), t1.elapsed().as_secs_f64());
+    }
+    // chunk-COUNT boundaries (255..257 K + O; 65535 .. 2^17 + 1 chunks mostly oracle-only)
+    let t2 = std::time::Instant::now();
+    count_family(&mut s, &mut rng, args.thorough(), &pool);
+    let mut s = exit_if_hung(s);
+    if std::env::var_os("C01_TIMES").is_some() {
+        eprintln!("c01: count_family {:.1} s", t2.elapsed().as_secs_f64());
     }
 
     // seeded random programs
